@@ -440,6 +440,16 @@ func runC08(src sim.Source, o Opts) *Result {
 					p.Path += "/"
 				}
 			}
+			hasCatchAll := false
+			for _, rt := range rr.set.Routes() {
+				if rt.Method == p.Method && strings.Contains(rt.Pattern, "*") {
+					hasCatchAll = true // what a catch-all captures from a path with empty segments is outside the properties
+				}
+			}
+			if !hasCatchAll && src.Intn("manyslashes", 8) == 0 {
+				// a run of slashes at the end: removing ONE slash does not make it match, so no action may be taken
+				p.Path = strings.TrimRight(p.Path, "/") + sim.Pick(src, "slashrun", []string{"//", "///"})
+			}
 			rawPath, rawQuery := "", ""
 			if rr.f.reserved {
 				if src.Intn("withquery", 2) == 1 {
@@ -464,7 +474,7 @@ func runC08(src sim.Source, o Opts) *Result {
 			}
 			probeKeys = append(probeKeys, fmt.Sprint(p, rawPath, rawQuery))
 			rr.checkTSR(p, rawPath, rawQuery, fmt.Sprintf("round %d", r))
-			if !res.failed() && rawPath == "" && src.Intn("txnview", 6) == 5 {
+			if !res.failed() && rawPath == "" && !strings.Contains(p.Path, "//") && src.Intn("txnview", 6) == 5 {
 				// the same question asked through an open write transaction that has registered further routes (its
 				// lookups run on contexts sized for the committed tree): route, flag and parameters of the candidate
 				txn := rr.w.R.Txn(true)
